@@ -102,6 +102,8 @@ pub enum Op {
     /// ev = send | join | txdone | timeout | timeout_fault | rx | noise0 | noise1 | noise2;
     /// tx = what the radio answers to a transmit request (send / join): done | txing | err | idle
     NbEv { ev: String, frame: Option<Frame>, tx: String, ts: u32 },
+    /// trace marker (multicast data path): the group the network has just set up, as the recorder's network side holds it
+    McGroup { g: u8, addr: [u8; 4], keyenc: [u8; 16], genappkey: [u8; 16], nwk: [u8; 16], app: [u8; 16], min: u32, max: u32 },
     /// trace markers for forked continuations (the device is re-created and the prefix re-executed silently)
     Checkpoint,
     Restore { id: usize },
@@ -339,6 +341,11 @@ impl<'a> Runner<'a> {
                 self.emit(dev, json!({"ev": "serde", "ok": ok, "doc": bytes(doc.as_bytes())}), Some(op));
                 true
             }
+            Op::McGroup { g, addr, keyenc, genappkey, nwk, app, min, max } => {
+                self.emit(dev, json!({"ev": "mc_group", "g": g, "addr": bytes(addr), "keyenc": bytes(keyenc), "genappkey": bytes(genappkey),
+                                      "nwk": bytes(nwk), "app": bytes(app), "min": [min >> 16, min & 0xffff], "max": [max >> 16, max & 0xffff]}), Some(op));
+                true
+            }
             Op::SetSession { doc } => {
                 let r = catch(|| serde_json::from_str::<Session>(doc).map_err(|e| e.to_string()));
                 let ok = match r {
@@ -445,7 +452,7 @@ impl<'a> Runner<'a> {
                     }
                     Ok(Some(Ok(async_device::ListenResponse::SessionExpired))) => resp_json("SessionExpired", 0),
                     #[cfg(feature = "mc")]
-                    Ok(Some(Ok(async_device::ListenResponse::Multicast(m)))) => json!({"k": "Multicast", "v": 0, "s": format!("{m:?}")}),
+                    Ok(Some(Ok(async_device::ListenResponse::Multicast(m)))) => mc_resp_json(m),
                     Ok(Some(Err(async_device::Error::Radio(_)))) => resp_json("ErrRadio", 0),
                     Ok(Some(Err(async_device::Error::Mac(_)))) => resp_json("ErrMac", 0),
                     Ok(None) => resp_json("Pending", 0),
@@ -2407,6 +2414,125 @@ pub fn vh_mcwalk(a: &Args) {
                     h += 1;
                 }
             }
+        }
+    }
+    println!("events={} histories={h}", out.finish());
+}
+
+/// A multicast response with its fields spelt out (kind: received | expired | new).
+#[cfg(feature = "mc")]
+fn mc_resp_json(m: &async_device::MulticastResponse) -> Value {
+    use async_device::MulticastResponse as M;
+    match m {
+        M::DownlinkReceived { group_id, fcnt } => json!({"k": "Multicast", "v": 0, "s": format!("{m:?}"), "mk": "received", "g": group_id, "cnt": [fcnt >> 16, fcnt & 0xffff]}),
+        M::SessionExpired { group_id } => json!({"k": "Multicast", "v": 0, "s": format!("{m:?}"), "mk": "expired", "g": group_id, "cnt": [0, 0]}),
+        M::NewSession { group_id } => json!({"k": "Multicast", "v": 0, "s": format!("{m:?}"), "mk": "new", "g": group_id, "cnt": [0, 0]}),
+    }
+}
+
+#[cfg(feature = "mc")]
+/// `vh mcdata` (binary built with the `multicast` feature): the multicast DATA path.  A Class C device with an ABP
+/// session is given a multicast group by an authentic McGroupSetupReq on FPort 200 (McAddr, McKey_encrypted,
+/// minMcFCount, maxMcFCount) and then hears multicast frames of that group one at a time while it listens outside a
+/// procedure: frames at, below and above minMcFCount, in order, repeated (replays), out of order, across the 16-bit
+/// roll-over of the wire counter, at and beyond maxMcFCount, with a broken MIC, under the wrong address, and unicast
+/// frames on a multicast port.  The event `mc_group` tells the specification what the network set up (the session
+/// keys the recorder used are re-derived by Aes.tla and must match); McTrace.tla decides what each frame must do.
+pub fn vh_mcdata(a: &Args) {
+    use lorawan::default_crypto::DefaultCrypto;
+    use lorawan::keys::{Crypto as _, AES128};
+    let mut out = crate::cli::Shards::create(&a.out, "mac", a.shards);
+    let key = [1u8; 16];
+    let addr = [1u8, 2, 3, 4];
+    let gen_app_key = [9u8; 16];
+    let enc = |k: &[u8; 16], mut b: [u8; 16]| -> [u8; 16] {
+        DefaultCrypto::new(&AES128(*k)).encrypt_block(&mut b);
+        b
+    };
+    let mut h = 0usize;
+    // (minMcFCount, maxMcFCount, counters of the frames delivered in this order)
+    let plans: Vec<(u32, u32, Vec<u32>)> = vec![
+        (0, 10, vec![0, 0, 1, 1, 3, 2, 3, 9, 9, 10, 11, 4]),
+        (5, 20, vec![4, 0, 5, 5, 0, 6, 19, 20, 19, 7]),
+        (65530, 65600, vec![65530, 65535, 65535, 65536, 65536, 0, 65537, 65531]),
+        (0, 0xFFFF_FFFF, vec![7, 7, 0, 8, 70000, 8, 70001]),
+        (100, 100, vec![100, 99, 0]),
+        (0x0001_FFF0, 0x0002_0010, vec![0x0001_FFF0, 0x0001_FFFF, 0x0002_0000, 0x0001_FFFF, 0x0002_000F, 0x0002_0010]),
+    ];
+    for (gi, (min, max, counters)) in plans.iter().enumerate() {
+        for group in [0u8, 3] {
+            let mcaddr = [0x11u8 + gi as u8, 0x22, 0x33, 0x44];
+            let keyenc = [0x5au8 ^ gi as u8; 16];
+            // the key hierarchy of TS005 / LoRaWAN 1.0.x
+            let root = enc(&gen_app_key, [0; 16]);
+            let ke = enc(&root, [0; 16]);
+            let mckey = enc(&ke, keyenc);
+            let mut blk = [0u8; 16];
+            blk[0] = 1;
+            blk[1..5].copy_from_slice(&mcaddr);
+            let mc_app = enc(&mckey, blk);
+            blk[0] = 2;
+            let mc_nwk = enc(&mckey, blk);
+            let mut setup = vec![0x02u8, group];
+            setup.extend(mcaddr);
+            setup.extend(keyenc);
+            setup.extend(min.to_le_bytes());
+            setup.extend(max.to_le_bytes());
+            let ops = vec![
+                Op::Reset { region: "EU868".into(), front: "async".into(), classc: true, board: 0, bias_sb: 0, bias_retries: 1,
+                            lead: 10, buffer: 10, offset: 0, duration: 500, session: None },
+                Op::JoinAbp { nwk: key, app: key, addr },
+                Op::SetDr { dr: 5 },
+            ];
+            let mcnet = Net { nwk: mc_nwk, app: mc_app, addr: mcaddr, sent: vec![] };
+            // what is heard, one frame per listening call: (intent, bytes)
+            let mut heard: Vec<(String, Vec<u8>)> = vec![];
+            for (i, n) in counters.iter().enumerate() {
+                let data: Vec<u8> = vec![0xC0 | i as u8, *n as u8, (*n >> 8) as u8];
+                heard.push((format!("mc:n={n}"), mcnet.data(*n, false, false, &[], 201 + (i % 5) as i32, &data, false, false)));
+            }
+            // a frame of the group with a broken MIC, one under another address with the group's keys, and a
+            // unicast frame of the device's own session on a multicast port: none is a frame of the group
+            let fresh = counters.iter().copied().filter(|n| *n >= *min && *n < *max).max().map(|n| n.saturating_add(1)).unwrap_or(*min);
+            let mut bad = mcnet.data(fresh, false, false, &[], 202, &[1, 2, 3], false, false);
+            let l = bad.len();
+            bad[l - 2] ^= 0x10;
+            heard.push(("mc:badmic".into(), bad));
+            let other = Net { nwk: mc_nwk, app: mc_app, addr: [0x99, 0x22, 0x33, 0x44], sent: vec![] };
+            heard.push(("mc:otheraddr".into(), other.data(fresh, false, false, &[], 202, &[1, 2, 3], false, false)));
+            let mut step = 0usize;
+            let setup2 = setup.clone();
+            let mut g = |view: &View| -> Option<Op> {
+                step += 1;
+                if step == 1 {
+                    // the group is set up by a unicast downlink on FPort 200 in RX1 of an uplink
+                    let (nwk, app, ad) = view.keys?;
+                    let net = Net { nwk, app, addr: ad, sent: vec![] };
+                    let n = view.fcnt_down.map(|x| x + 1).unwrap_or(0);
+                    let f = Frame { bytes: net.data(n, false, false, &[], 200, &setup2, false, false), snr: 3, intent: "mc:setup".into() };
+                    let mut plan = Proc { tx: "done".into(), ts: 100, fault: -1, ..Default::default() };
+                    plan.rx1.push(f);
+                    return Some(Op::Send { port: 1, data: vec![7], confirmed: false, draws: vec![], plan });
+                }
+                if step == 2 {
+                    return Some(Op::McGroup { g: group, addr: mcaddr, keyenc, genappkey: gen_app_key, nwk: mc_nwk, app: mc_app, min: *min, max: *max });
+                }
+                let i = step - 3;
+                if i < heard.len() {
+                    let (intent, bytes) = heard[i].clone();
+                    return Some(Op::Rxc { frames: vec![Frame { bytes, snr: 3, intent }] });
+                }
+                if i == heard.len() {
+                    return Some(Op::TakeDl);
+                }
+                if i == heard.len() + 1 {
+                    // the unicast session is still alive
+                    return Some(Op::Send { port: 1, data: vec![8], confirmed: false, draws: vec![], plan: Proc { tx: "done".into(), ts: 100, fault: -1, ..Default::default() } });
+                }
+                None
+            };
+            let _ = run_history(out.shard(h), &ops, a.seed ^ h as u64, Some(&mut g));
+            h += 1;
         }
     }
     println!("events={} histories={h}", out.finish());
